@@ -33,7 +33,9 @@ var propMeta = map[string]Meta{
 		Real: []string{"pkg/network Router, routerCore reader goroutine, mailboxes, Namespaced views, SendTo/ReceiveFrom, Close", "pkg/network/echo rounds and runner", "pkg/network/exchange helpers", "pkg/base/serde (CBOR envelope)"},
 		Stub: commonStub,
 		ExpectedProbes: []string{"dup", "redeliver", "inject", "conflict", "cancel", "close", "terr", "recv_invoked_before_arrival", "recv_invoked_when_ready",
-			"duplicate_after_consumption_buffered", "conflict_poisoned_receive", "cancel_with_partial_mailbox", "retry_after_cancel_completed", "inject_nonmember", "inject_other_namespace", "inject_nonparticipant", "inject_unknown_cid"},
+			"duplicate_after_consumption_buffered", "conflict_poisoned_receive", "cancel_with_partial_mailbox", "retry_after_cancel_completed", "inject_nonmember", "inject_other_namespace", "inject_nonparticipant", "inject_unknown_cid",
+			"fine_task_steps", "fully_quiescent_states", "histories_checked"},
+		FineStep:     true,
 		QuickBudgetS: 240, ThoroughBudgetS: 2400,
 	},
 }
